@@ -7,6 +7,7 @@ import (
 	"fmt"
 	"net"
 	"runtime"
+	"sort"
 	"strings"
 	"sync"
 	"sync/atomic"
@@ -16,6 +17,7 @@ import (
 	"tunnox-core/internal/core/idgen"
 	"tunnox-core/internal/core/storage"
 	"tunnox-core/internal/core/types"
+	"tunnox-core/internal/packet"
 	"tunnox-core/internal/stream"
 	vk "tunnox-core/internal/verifkit"
 )
@@ -43,7 +45,7 @@ func c16Spin(n int) {
 	}
 }
 
-func c16RunRace(fns []func(), nCount int, spins []int) (maxInside int, ok bool) {
+func c16RunRace(fns []func(), nCount int, spins []int, snap vk.LeakSnapshot, markers []string) (maxInside int, ok bool, hung []string) {
 	r := &c16Race{}
 	var wg sync.WaitGroup
 	k := len(fns)
@@ -90,12 +92,82 @@ func c16RunRace(fns []func(), nCount int, spins []int) (maxInside int, ok bool) 
 	r.flag.Store(1)
 	done := make(chan struct{})
 	go func() { wg.Wait(); close(done) }()
-	select {
-	case <-done:
-	case <-time.After(20 * time.Second):
-		return int(r.maxIn.Load()), false
+	finished, hung := c16WaitOrHang(done, snap, markers)
+	if !finished {
+		return int(r.maxIn.Load()), false, hung
 	}
-	return int(r.maxIn.Load()), r.timeout.Load() == 0
+	return int(r.maxIn.Load()), r.timeout.Load() == 0, nil
+}
+
+// c16Deadlocked decides "hang" logically (DESIGN 2.5b): it takes three goroutine dumps
+// 100 ms apart and looks at the goroutines created since snap whose stack contains one of
+// the markers (= this trial's closers and operations inside the component). If they are
+// the same goroutines, none running or runnable, in the same state and innermost frame
+// every time, and at least one of them is parked in a mutex Lock, no progress is possible
+// any more: the harness itself is only waiting and feeds nothing.
+func c16Deadlocked(snap vk.LeakSnapshot, markers []string) (stacks []string, dead bool) {
+	var prev []string
+	for round := 0; round < 3; round++ {
+		if round > 0 {
+			time.Sleep(100 * time.Millisecond)
+		}
+		var cur []string
+		stacks = stacks[:0]
+		inLock := false
+		for _, g := range vk.Goroutines() {
+			if _, old := snap[g.ID]; old {
+				continue
+			}
+			involved := false
+			for _, m := range markers {
+				if strings.Contains(g.Stack, m) {
+					involved = true
+				}
+			}
+			if !involved {
+				continue
+			}
+			if strings.HasPrefix(g.State, "running") || strings.HasPrefix(g.State, "runnable") {
+				return nil, false
+			}
+			if strings.Contains(g.Stack, "sync.(*Mutex).Lock") || strings.Contains(g.Stack, "sync.(*RWMutex).") {
+				inLock = true
+			}
+			cur = append(cur, g.ID+"|"+strings.SplitN(g.State, ",", 2)[0]+"|"+g.Top)
+			st := g.Stack
+			if len(st) > 1500 {
+				st = st[:1500]
+			}
+			stacks = append(stacks, st)
+		}
+		sort.Strings(cur)
+		if len(cur) == 0 || !inLock || (round > 0 && strings.Join(cur, ";") != strings.Join(prev, ";")) {
+			return nil, false
+		}
+		prev = cur
+	}
+	return stacks, true
+}
+
+// c16WaitOrHang waits for done. Normal trials finish within microseconds; after 1 s the
+// logical hang classifier is consulted every 2 s; the 20 s cap is an inconclusive watchdog.
+func c16WaitOrHang(done <-chan struct{}, snap vk.LeakSnapshot, markers []string) (finished bool, stacks []string) {
+	wait := time.Second
+	deadline := time.Now().Add(20 * time.Second)
+	for {
+		select {
+		case <-done:
+			return true, nil
+		case <-time.After(wait):
+		}
+		if st, dead := c16Deadlocked(snap, markers); dead {
+			return false, st
+		}
+		if time.Now().After(deadline) {
+			return false, nil
+		}
+		wait = 2 * time.Second
+	}
 }
 
 // c16PanicSite names the innermost tunnox-core frames below a recovered panic.
@@ -135,7 +207,7 @@ func TestVerifC16SessionManager(t *testing.T) {
 	idm := idgen.NewIDManager(stor, context.Background())
 	defer idm.Close()
 
-	for trial := 0; trial < n && run.Violations() < 20 && run.Counter("leak_violations") < 3; trial++ {
+	for trial := 0; trial < n && run.Violations() < 20 && run.Counter("leak_violations") < 3 && run.Counter("close_deadlocks") < 3; trial++ {
 		k := ks[r.Intn(len(ks))]
 		m := []int{0, 1, 5}[r.Intn(3)]
 		withCloseConn := r.Intn(2) == 0
@@ -159,6 +231,7 @@ func TestVerifC16SessionManager(t *testing.T) {
 		type cconn struct {
 			id       string
 			far      net.Conn
+			drained  chan error
 			panicked atomic.Value
 		}
 		var conns []*cconn
@@ -190,6 +263,32 @@ func TestVerifC16SessionManager(t *testing.T) {
 					}
 				}
 			}(sc.Stream)
+			// a sender on the same connection (heartbeats / responses): operations keep
+			// STARTING while Close is cleaning up; the peer drains them
+			readers.Add(1)
+			go func(st stream.PackageStreamer) {
+				defer readers.Done()
+				defer func() {
+					if e := recover(); e != nil {
+						cc.panicked.Store(fmt.Sprint(e) + " @ " + c16PanicSite())
+					}
+				}()
+				for j := 0; j < 100000; j++ {
+					if _, err := st.WritePacket(&packet.TransferPacket{PacketType: packet.Heartbeat}, false, 0); err != nil {
+						return
+					}
+				}
+			}(sc.Stream)
+			cc.drained = make(chan error, 1)
+			go func() {
+				buf := make([]byte, 4096)
+				for {
+					if _, err := cc.far.Read(buf); err != nil {
+						cc.drained <- err
+						return
+					}
+				}
+			}()
 		}
 		if setupFailed {
 			t.Fatalf("c16: AcceptConnection failed during setup")
@@ -217,14 +316,28 @@ func TestVerifC16SessionManager(t *testing.T) {
 		if withCancel {
 			fns = append(fns, cancel)
 		}
-		maxIn, ok := c16RunRace(fns, k, spins[:len(fns)])
+		markers := []string{"tunnox-core/internal/protocol/session.(*SessionManager)", "tunnox-core/internal/stream.(*StreamProcessor)"}
+		maxIn, ok, hung := c16RunRace(fns, k, spins[:len(fns)], snap, markers)
+		if hung != nil {
+			// Close (or a read loop racing it) can never return; abandon this trial's goroutines
+			run.Violation("C16:session|close-deadlock", map[string]any{"case": desc, "parked_goroutines": len(hung), "stacks": hung})
+			run.Count("close_deadlocks", 1)
+			for _, cc := range conns {
+				cc.far.Close()
+			}
+			if lateFar != nil {
+				lateFar.Close()
+				lateNear.Close()
+			}
+			cancel()
+			continue
+		}
 		// every connection accepted before the race must have been closed by now: its
 		// peer's pending read ends (pipe closed) instead of blocking
 		leftOpen := 0
 		for _, cc := range conns {
 			cc.far.SetReadDeadline(time.Now().Add(3 * time.Second))
-			buf := make([]byte, 1)
-			_, err := cc.far.Read(buf)
+			err := <-cc.drained
 			if ne, isNet := err.(net.Error); isNet && ne.Timeout() {
 				leftOpen++
 			} else if err != nil {
